@@ -27,7 +27,7 @@ def c_ctl(c):
     if k == 'kill':
         return '(CKill %s)' % c_opt(c[1], c_str)
     if k == 'resume':
-        return '(CResume %s)' % (c_opt(c[1], c_val) if len(c) > 1 else 'None')
+        return '(CResume %s)' % ('(Some %s)' % c_val(c[1]) if len(c) > 1 else 'None')
     if k == 'fail':
         return '(CFail (EUser %s))' % c_str(c[1])
     if k == 'raise':
